@@ -10,7 +10,7 @@
 From Coq Require Import Reals QArith Lra List.
 From SpdVerif Require Import Model.FinSum Model.Hom Model.Hom2 Model.C10_Pyth Proofs.C10_pyth Proofs.FinSum_lemmas Proofs.Cx_lemmas Proofs.CMat Proofs.C10_sums
   Proofs.C10_svd Proofs.C10_expand Proofs.C10_identical Proofs.C10_setup Proofs.C10_exec Proofs.C10_sharp Proofs.C10_si_char Proofs.C10_scale Gen.HomSrc Proofs.C10_src.
-From SpdVerif Require Import Model.PMParams Gen.PMIntegrand Proofs.C06_defined Proofs.C06_spectrum Proofs.C09_compose Proofs.C10_compose.
+From SpdVerif Require Import Model.PMParams Gen.PMIntegrand Proofs.C06_defined Proofs.C06_spectrum Proofs.C09_compose Proofs.C10_compose Proofs.C09_grid_tie Base.GridOps Gen.Grid.
 Local Open Scope R_scope.
 
 (* identical sources (six main grids = one array F), unit phases (zero delay):
@@ -29,7 +29,8 @@ Proof. exact purity_s_eq_i. Qed.
 
 (* for ANY factorisation F = U diag(sv) V^dagger with orthonormal columns (sv real): both purities are sum sv^4/(sum sv^2)^2 *)
 Theorem C10_singular_values : forall n M sv,
-  is_csvd n M sv -> purity_s ROps n M = purity_sv n sv /\ purity_i ROps n M = purity_sv n sv.
+  is_csvd n M sv -> frob2 ROps n M <> 0 ->
+  rsum n (fun k => sv k * sv k) <> 0 /\ purity_s ROps n M = purity_sv n sv /\ purity_i ROps n M = purity_sv n sv.
 Proof. exact purity_singular_values. Qed.
 
 Theorem C10_power_sums : forall n M sv,
@@ -208,6 +209,12 @@ Theorem C10_pyth_twin : forall (n : nat) (x0 h : R) (k r m0 : Z),
   Q2R si = ts_rate_si ROps n (ts_R l) (ts_phase_si g g (pyth_delay m0 h)).
 Proof. exact ts_rates_Qpyth_correct. Qed.
 
+(* the index maps of the four-fold sum and the grid are the ones generated from src/utils.rs (Gen/Grid.v) *)
+Theorem C10_index_maps_generated : forall (g : grid R) (k index cols col row : nat),
+  (grid_ws ROps g k, grid_wi ROps g k) = Grid.steps2d_value Rops (g_x0 g) (g_x1 g) (g_cols g) (g_y0 g) (g_y1 g) (g_rows g) k /\
+  FinSum.get_2d_indices index cols = Grid.get_2d_indices index cols /\ FinSum.get_1d_index col row cols = Grid.get_1d_index col row cols.
+Proof. exact (fun g k index cols col row => conj (grid_point_generated g k) (conj (get_2d_indices_generated index cols) (get_1d_index_generated col row cols))). Qed.
+
 (* ---- non-vacuity *)
 Example C10_nonvacuous_norm : jsi_norm ROps (2 * 2) (fun _ => (1, 0)) <> 0.
 Proof. unfold jsi_norm, cnorm2. cbn. lra. Qed.
@@ -218,6 +225,10 @@ Proof.
   repeat match goal with H : (_ < 1)%nat |- _ => apply PeanoNat.Nat.lt_1_r in H; subst end;
   cbn; apply injective_projections; cbn; lra.
 Qed.
+
+Example C10_nonvacuous_csvd2 :
+  is_csvd 2 (fun s i => if Nat.eqb s i then (0, 0) else if Nat.eqb s 0 then (0, 2) else (3, 0)) (fun k => if Nat.eqb k 0 then 2 else 3).
+Proof. exact csvd_example_2. Qed.
 
 Example C10_nonvacuous_unit : unit_phases (fun _ _ => (1, 0)).
 Proof. intros k l. unfold cnorm2. cbn. lra. Qed.
@@ -251,5 +262,6 @@ Print Assumptions C10_source_is_model.
 Print Assumptions C10_source_wrappers.
 Print Assumptions C10_source_free_function.
 Print Assumptions C10_pyth_twin.
+Print Assumptions C10_index_maps_generated.
 Print Assumptions C10_exec_twin.
 Print Assumptions C10_exec_twin_purity.
